@@ -230,6 +230,36 @@ func scaling(runN func(sp *ebnfref.Spec, family string, n int), quick bool) {
 				}
 				mk("scaling_deep_nesting", fmt.Sprintf("%sstart = %s \"b\" ;\n", head, rot), 5)
 			}
+			// two groups of one kind that differ in a single one of their m alternatives (every position for small
+			// m, the first, middle and last positions otherwise), or by one alternative more at either end
+			if m >= 2 {
+				var pos []int
+				if m <= 12 {
+					for j := 0; j < m; j++ {
+						pos = append(pos, j)
+					}
+				} else {
+					pos = []int{0, 1, 4, 5, 6, 7, 8, m / 2, m - 2, m - 1}
+				}
+				ln := width + 2
+				if b >= 2 && ln > 6 {
+					ln = 6
+				}
+				var seconds []string
+				for _, j := range pos {
+					alt2 := append([]string{}, alts...)
+					alt2[j] = "TK TK"
+					seconds = append(seconds, strings.Join(alt2, " | "))
+				}
+				seconds = append(seconds, wide+" | TK TK", "TK TK | "+wide)
+				for k, second := range seconds {
+					if k%2 == 0 {
+						mk("scaling_wide_look_alikes", fmt.Sprintf("%sstart = %s \"a\" | %s \"b\" ;\n", head, wrap(b, wide), wrap(b, second)), ln)
+					} else {
+						mk("scaling_wide_look_alikes", fmt.Sprintf("%sstart = z \"a\" | %s \"b\" ;\nz = %s ;\n", head, wrap(b, second), wrap(b, wide)), ln)
+					}
+				}
+			}
 			// m different groups of one kind in one rule, and one per rule over m rules; one group written m times
 			var many, rules, names, same []string
 			for i := 1; i <= m; i++ {
